@@ -55,19 +55,27 @@ SPEC = {
     ],
     "trusted_base": [
         "hand-written models Hive/Model/OMap.lean (abstract ordered map, ds.Set, SetMutations, SetArithmetic, byte format), "
-        "Hive/Model/OMapPtr.lean (hash index + doubly linked chain) and Hive/Model/OMapConc.lean (lock scripts, method-level "
-        "protocol, RWMutex semantics), tied to the working tree by line-by-line differential execution (harness/c11), by the "
+        "Hive/Model/OMapPtr.lean (hash index + doubly linked chain), Hive/Model/OMapDict.lean (the dictionary's ShrinkingMap "
+        "bookkeeping: deletedKeys, shouldShrink with the default options, rebuild) and Hive/Model/OMapConc.lean (lock scripts, "
+        "method-level protocol, RWMutex semantics), tied to the working tree by line-by-line differential execution (harness/c11), by the "
         "regenerated lock skeletons (Hive/Gen/C11_Skel.lean + the harness's own go/ast extraction) and by recorded concurrent "
         "histories decided by the Lean linearizability checker",
         "sync.RWMutex semantics as written in lockStep (permissive for reachability, writer-preference for blocking)",
-        "Go toolchain, compiled Lean driver, serix encoding of uint16/uint8/struct{}",
+        "Go toolchain, compiled Lean driver, serix encoding of fixed-width numbers/bool/struct{}",
+        "reflection reads of the unexported fields dictionary.deletedKeys / dictionary.opts (names pinned by C11_skeleton_type_*); "
+        "float32 ratio comparison of shouldShrink modelled exactly for sizes below 2^20",
     ],
     "modelled": [
         "orderedmap.OrderedMap Set/Get/Has/Delete/Clear/Head/Tail/Size/IsEmpty/ForEach/ForEachReverse/Clone at pointer level (elements, prev/next, head/tail, dictionary, size)",
         "ds.Set Add/Delete/Has/AddAll/DeleteAll/Apply/Compute/Replace/HasAll/Equals/Intersect/Filter/Clone/Is/Any/ToSlice/Iterator/Size/IsEmpty/Clear/Encode/Decode; SetMutations; SetArithmetic Add/Subtract/collectors",
-        "SerializableOrderedMap.Encode/Decode byte format with abstract element codecs (concrete: uint16 keys, uint8 / struct{} values)",
-        "NOT modelled: nil receivers; arguments aliased with the receiver (s.AddAll(s), s.Replace(s)); String(); ShrinkingMap shrinking; "
-        "uint32 truncation of Size() beyond 2^32 entries is modelled but not exercised; the unlocked read of currentEntry.value in ForEach "
+        "SerializableOrderedMap.Encode/Decode byte format with abstract element codecs (concrete: little-endian numbers of every width "
+        "1..8 bytes, struct{} values, table codecs for pointer/slice/map values); bytes read of a failed Decode",
+        "the dictionary layer: ShrinkingMap Get/Has/Set/Delete/Clear as OrderedMap uses it, deletedKeys, shouldShrink (default options "
+        "ratio 10 / count 100), shrink as a real copy; nil receivers of ForEach/ForEachReverse/Clear/Size/IsEmpty/Clone; String(); "
+        "ReadOnly() views held across mutations; NewReadableSet; omitted / zero / negative / repeated SetArithmetic thresholds; "
+        "s.DeleteAll(s) at pointer level (C11_alias_deleteall), other self-aliased calls by differential execution",
+        "NOT modelled: nil *readableSet receivers (not constructible through the API); non-default ShrinkingMap options (OrderedMap never "
+        "passes any); uint32 truncation of Size() beyond 2^32 entries is modelled but not exercised; the unlocked read of currentEntry.value in ForEach "
         "(a data race with a concurrent Set of the same key on maps with non-empty values) is outside the property",
     ],
     "manifest": {
@@ -78,23 +86,30 @@ SPEC = {
                 "mathematical definition (C11_algebra), SetArithmetic emits exactly the changes of the threshold set for any collector sequence "
                 "(C11_arith_threshold), Encode/Decode round-trips contents and order for any prefix-free element codec (C11_codec_roundtrip) and "
                 "Decode accepts only canonical bytes (C11_codec_canonical), a ForEach / ForEachReverse interleaved with arbitrary writers visits "
-                "every key live throughout exactly once in (reverse) insertion order (C11_weak_iteration). "
+                "every key live throughout exactly once in (reverse) insertion order (C11_weak_iteration) and advances from a still-live entry "
+                "to its neighbour in insertion order as of that moment (C11_iteration_step); s.DeleteAll(s) visits and removes everything "
+                "(C11_alias_deleteall); rebuilding the hash index (ShrinkingMap.shrink under the ordered map) is invisible "
+                "(C11_dict_shrink_transparent); the round trip holds for every element width down to one byte per entry (C11_codec_widths). "
                 "Protocol level, for any number of goroutines and any schedule: no deadlock for well-formed lock scripts and all Set methods are "
                 "well-formed (C11_deadlock_free, C11_deadlock_free_methods; the pre-fix DeleteAll deadlock is C11_old_deleteall_deadlock_witness), "
                 "Apply/Compute/Replace exclude all other mutators (C11_apply_atomic), Add/Delete/Has/Clear are linearizable "
                 "(C11_single_linearizable), the history checker is sound (C11_lincheck_sound). Tie on every run: differential execution of "
-                "~5000 random 40-op histories on the real OrderedMap/Set/SetArithmetic incl. serix Encode/Decode (uint8, struct{}, *struct, "
-                "[]uint16 and map values, value-exact and pointer-distinct), Clone/ForEach on 1000+-entry maps against a pending writer, forced "
+                "~5000 random 40-op histories on the real OrderedMap/Set/SetArithmetic incl. serix Encode/Decode (1..8-byte elements, uint8, "
+                "struct{}, *struct, []uint16 and map values, value-exact and pointer-distinct), 40 delete-heavy histories of 300-700 operations "
+                "that rebuild the hash index (deletedKeys read from the real object after every operation), consumers that delete the "
+                "next/previous/current entry or append during the last visit (oracle iteration-step), Clone/ForEach on 1000+-entry maps against a pending writer, forced "
                 "'argument ForEach parked while a writer is pending' schedules, multi-goroutine stress histories decided by the Lean "
-                "linearizability checker and an independent Go oracle, regenerated lock skeletons (C11_skeleton_*).",
+                "linearizability checker and an independent Go oracle, regenerated lock skeletons of every Set/OrderedMap/ShrinkingMap method "
+                "used and regenerated struct shapes of all anchored types (C11_skeleton_*).",
         "note": "Trusted: Lean kernel; the three hand-written models (tie = differential execution + lock skeletons + recorded histories); "
-                "RWMutex semantics as modelled; self-aliased arguments only tested, not proved. Three defects of the unchanged tree were fixed "
-                "(DeleteAll re-entrant RLock deadlock, Replace returning all previous elements, Decode merging duplicate keys).",
+                "RWMutex semantics as modelled; of the self-aliased calls only DeleteAll is proved at pointer level, the others are tested. Four defects of the unchanged tree were fixed "
+                "(DeleteAll re-entrant RLock deadlock, Replace returning all previous elements, Decode merging duplicate keys, Replace(s) emptying s).",
         "technique": "Lean 4 refinement + invariant proofs over all histories / all schedules, differential correspondence, "
                      "linearizability checking of recorded histories",
     },
     "assumptions": [
-        "arguments of type ReadableSet/SetMutations are distinct objects from the receiver and behave as sets (their ForEach yields each element once)",
+        "arguments of type ReadableSet/SetMutations behave as sets (their ForEach yields each element once); when the argument is the receiver "
+        "itself the model takes its contents at the time of the call (proved equal to the pointer-level behaviour for DeleteAll, tested for the rest)",
         "callbacks passed to Compute/ForEach/Filter do not call methods of the same set that take applyMutex",
         "element codecs are total on their domain and prefix-free (hypothesis of C11_codec_roundtrip; proved for the concrete codecs in C11_codec_concrete)",
     ],
